@@ -149,6 +149,13 @@ impl Desc {
                 )));
             }
 
+            if const_labels.contains_key(label_name) {
+                return Err(Error::Msg(format!(
+                    "label name {} is used as both const and variable label",
+                    label_name
+                )));
+            }
+
             if !label_names.insert(format!("${}", label_name)) {
                 return Err(Error::Msg(format!(
                     "duplicate variable label name {}",
